@@ -1,5 +1,344 @@
-/- C16 — property theorems (to be written). -/
-import SoundeventModel.Basic
+/-
+  C16 — Range dimensions and coordinate lookup are exact.
+  Property theorems only (helper lemmas live in Proofs/Lemmas/Axis.lean, Proofs/Lemmas/NDArr.lean).
+-/
+import SoundeventModel.Axis
+import Proofs.Lemmas.Axis
+import Proofs.Lemmas.NDArr
 namespace SE.Proofs.C16
+open SE SE.Axis
+
+/-! ## `create_range_dim`, `create_time_range`, `create_frequency_range` -/
+
+/-- the coordinates are `start + i * step` (any step, any range) -/
+theorem C16_lattice (start stop step : Rat) (i : Nat) (h : i < (rangeCoords start stop step).length) :
+    (rangeCoords start stop step)[i] = start + (i : Rat) * step := by
+  simp only [rangeCoords_eq] at h ⊢
+  exact lattice_getElem ..
+
+/-- every coordinate lies in `[start, stop)` -/
+theorem C16_inside (start stop step : Rat) (hs : 0 < step) (c : Rat)
+    (hc : c ∈ rangeCoords start stop step) : start ≤ c ∧ c < stop := by
+  rw [rangeCoords_eq, mem_lattice] at hc
+  obtain ⟨i, hi, rfl⟩ := hc
+  have hi' : i < arangeLen start stop step := Nat.lt_of_lt_of_le hi (rangeLen_le ..)
+  have h1 := lt_arangeLen hi'
+  rw [Rat.lt_div_iff hs] at h1
+  have h0 : (0 : Rat) ≤ (i : Rat) * step := Rat.mul_nonneg (natCast_nonneg i) (Rat.le_of_lt hs)
+  constructor <;> grind
+
+/-- exactly `(stop - start) / step` coordinates when that is a whole number `n` -/
+theorem C16_count (start stop step : Rat) (n : Nat) (hs : 0 < step)
+    (h : stop - start = (n : Rat) * step) : (rangeCoords start stop step).length = n := by
+  rw [rangeCoords_eq, lattice_length, rangeLen, arangeLen_of_whole hs h]
+  split
+  · rename_i hc
+    obtain ⟨hn, hge⟩ := hc
+    exfalso
+    rw [natCast_pred hn] at hge
+    grind
+  · rfl
+
+/-- the count in general (what the trailing-point rule makes of a quotient that is not whole):
+    `ceil((stop - start) / step - 1/2)` coordinates, i.e. the quotient rounded half down.
+    A lattice point in the upper half-step below `stop` is therefore dropped
+    (`[0, 1.25)` with step 1 yields `[0]`); the property pins the count only for whole quotients. -/
+theorem C16_count_general (start stop step : Rat) (hs : 0 < step) :
+    (rangeCoords start stop step).length = ((stop - start) / step - 1 / 2).ceil.toNat := by
+  rw [rangeCoords_eq, lattice_length, rangeLen]
+  simp only [arangeLen]
+  obtain ⟨q, hq⟩ : ∃ q, (stop - start) / step = q := ⟨_, rfl⟩
+  simp only [hq]
+  have hqs : stop - start = q * step := by rw [← hq, Rat.div_mul_cancel (by grind)]
+  have hc1 : q ≤ (q.ceil : Rat) := Rat.le_ceil
+  have hc2 : (q.ceil : Rat) < q + 1 := Rat.ceil_lt
+  by_cases hpos : 0 < q.ceil
+  · have hn : 0 < q.ceil.toNat := by omega
+    have hcast : ((q.ceil.toNat - 1 : Nat) : Rat) = (q.ceil : Rat) - 1 := by
+      rw [natCast_pred hn]
+      have : ((q.ceil.toNat : Int) : Rat) = (q.ceil : Rat) := by
+        congr 1; omega
+      rw [← this]; rfl
+    rw [hcast]
+    by_cases hdrop : start + ((q.ceil : Rat) - 1) * step ≥ stop - step / 2
+    · rw [if_pos ⟨hn, hdrop⟩]
+      have hle : q - 1 / 2 ≤ ((q.ceil - 1 : Int) : Rat) := by
+        have : (q - 1 / 2) * step ≤ ((q.ceil : Rat) - 1) * step := by grind
+        have := Rat.le_of_mul_le_mul_right this hs
+        simpa using this
+      have hlt : ((q.ceil - 2 : Int) : Rat) < q - 1 / 2 := by
+        simp; grind
+      have h1 : (q - 1 / 2).ceil ≤ q.ceil - 1 := Rat.ceil_le_iff.mpr hle
+      have h2 : q.ceil - 2 < (q - 1 / 2).ceil := Rat.lt_ceil_iff.mpr hlt
+      omega
+    · rw [if_neg (by intro h; exact hdrop h.2)]
+      have hlt : ((q.ceil - 1 : Int) : Rat) < q - 1 / 2 := by
+        have : ((q.ceil : Rat) - 1) * step < (q - 1 / 2) * step := by grind
+        have := (Rat.mul_lt_mul_right hs).mp this
+        simpa using this
+      have hle : q - 1 / 2 ≤ ((q.ceil : Int) : Rat) := by grind
+      have h1 : (q - 1 / 2).ceil ≤ q.ceil := Rat.ceil_le_iff.mpr hle
+      have h2 : q.ceil - 1 < (q - 1 / 2).ceil := Rat.lt_ceil_iff.mpr hlt
+      omega
+  · have h0 : q.ceil.toNat = 0 := by omega
+    rw [h0]; simp
+    have hle : q - 1 / 2 ≤ ((0 : Int) : Rat) := by
+      have : (q.ceil : Rat) ≤ ((0 : Int) : Rat) := Rat.intCast_le_intCast.mpr (by omega)
+      simp at this ⊢; grind
+    have := Rat.ceil_le_iff.mpr hle
+    omega
+
+/-- the `step` attribute is the step the coordinates were generated with: the given step, or
+    `(stop - start) / size`, or `1 / samplerate`; the coordinates are those of that step -/
+theorem C16_step_attr (start stop : Rat) :
+    (∀ step size r, createRangeDim start stop (some step) size = .ok r →
+        r.step = step ∧ r.coords = rangeCoords start stop step) ∧
+    (∀ (n : Int) r, createRangeDim start stop none (some n) = .ok r →
+        r.step = (stop - start) / (n : Rat) ∧ r.coords = rangeCoords start stop r.step) ∧
+    (∀ step sr r, createTimeRange start stop (some step) sr = .ok r →
+        r.step = step ∧ r.coords = rangeCoords start stop step) ∧
+    (∀ sr r, createTimeRange start stop none (some sr) = .ok r →
+        r.step = 1 / sr ∧ r.coords = rangeCoords start stop (1 / sr)) ∧
+    (∀ step r, createFrequencyRange start stop step = .ok r →
+        r.step = step ∧ r.coords = rangeCoords start stop step) := by
+  refine ⟨?_, ?_, ?_, ?_, ?_⟩
+  · intro step size r h
+    simp only [createRangeDim] at h
+    split at h <;> simp_all
+    cases h; simp
+  · intro n r h
+    simp only [createRangeDim] at h
+    by_cases hn : n = 0 <;> simp [hn] at h
+    split at h <;> simp_all
+    cases h; simp
+  · intro step sr r h
+    simp only [createTimeRange, createRangeDim] at h
+    split at h <;> simp_all
+    cases h; simp
+  · intro sr r h
+    simp only [createTimeRange] at h
+    by_cases hn : sr = 0 <;> simp [hn] at h
+    simp only [createRangeDim] at h
+    split at h <;> simp_all
+    cases h; simp
+  · intro step r h
+    simp only [createFrequencyRange, createRangeDim] at h
+    split at h <;> simp_all
+    cases h; simp
+
+/-- a request with a non-zero step never fails — in particular an empty range (`start = stop`)
+    yields an empty dimension (repaired code; the pinned tree raised `IndexError`) -/
+theorem C16_range_total (start stop step : Rat) (size : Option Int) (hs : step ≠ 0) :
+    createRangeDim start stop (some step) size
+      = .ok { coords := rangeCoords start stop step, step := step } := by
+  simp [createRangeDim, hs]
+
+/-- the executable statement of the range part (used as monitor on the real output) holds of the
+    model for every valid request -/
+theorem C16_range_spec (start stop step : Rat) (hs : 0 < step) (hle : start ≤ stop) :
+    rangeSpec start stop step (createRangeDim start stop (some step) none) = true := by
+  rw [C16_range_total _ _ _ _ (by grind)]
+  simp only [rangeSpec, Bool.and_eq_true]
+  refine ⟨⟨⟨by simp, ?_⟩, ?_⟩, ?_⟩
+  · simp [rangeCoords_eq]
+  · rw [List.all_eq_true]
+    intro c hc
+    have := C16_inside start stop step hs c hc
+    simp [this]
+  · split
+    · rename_i hden
+      have hden' : ((stop - start) / step).den = 1 := by simpa using hden
+      have hmul : (stop - start) / step * step = stop - start := Rat.div_mul_cancel (by grind)
+      have hq0 : 0 ≤ (stop - start) / step :=
+        Rat.le_of_mul_le_mul_right (c := step) (by rw [hmul, Rat.zero_mul]; grind) hs
+      have hnum : 0 ≤ ((stop - start) / step).num := Rat.num_nonneg.mpr hq0
+      have hq : (stop - start) / step = ((((stop - start) / step).num.toNat : Nat) : Rat) := by
+        apply Rat.ext
+        · simp; omega
+        · simp [hden']
+      have h : stop - start = ((((stop - start) / step).num.toNat : Nat) : Rat) * step := by
+        rw [← hq, Rat.div_mul_cancel (by grind)]
+      simp [C16_count start stop step _ hs h]
+    · rfl
+
+/-! ## `get_coord_index` -/
+
+/-- inside the axis range the lookup returns an index `i` with `coords[i] ≤ v`, `v < coords[i+1]`
+    when there is a next coordinate, and it is the only such index -/
+theorem C16_index_unique (coords : List Rat) (v : Rat) (raise : Bool) (hs : Sorted coords)
+    (hne : coords ≠ []) (hlo : coords.head hne ≤ v) (hhi : v ≤ coords.getLast hne) :
+    ∃ i, ∃ hi : i < coords.length, coordIndex coords v raise = .ok i ∧ coords[i] ≤ v ∧
+      (∀ h : i + 1 < coords.length, v < coords[i + 1]) ∧
+      ∀ j (hj : j < coords.length), coords[j] ≤ v →
+        (∀ h : j + 1 < coords.length, v < coords[j + 1]) → j = i := by
+  have hlen : 0 < coords.length := List.length_pos_iff.mpr hne
+  have hin : ¬ (v < coords.head hne ∨ v > coords.getLast hne) := by grind
+  have h0 : 0 < countLE coords v := by
+    rw [lt_countLE_iff hs v 0 hlen]
+    rw [List.head_eq_getElem] at hlo; exact hlo
+  have hle := countLE_le_length coords v
+  refine ⟨countLE coords v - 1, by omega, ?_, ?_, ?_, ?_⟩
+  · rw [coordIndex_sorted coords v raise hs hne, if_neg hin]
+  · exact (lt_countLE_iff hs v _ (by omega)).mp (by omega)
+  · intro h
+    have := (lt_countLE_iff hs v (countLE coords v - 1 + 1) h)
+    have hnot : ¬ (countLE coords v - 1 + 1 < countLE coords v) := by omega
+    have := mt this.mpr hnot
+    exact Rat.not_le.mp this
+  · intro j hj hjv hnext
+    have hjc := (lt_countLE_iff hs v j hj).mpr hjv
+    by_cases hlt : j + 1 < countLE coords v
+    · have hj1 : j + 1 < coords.length := by omega
+      have := (lt_countLE_iff hs v (j + 1) hj1).mp hlt
+      have := hnext hj1
+      grind
+    · omega
+
+/-- at the upper edge (`v` = last coordinate) the lookup returns the last index -/
+theorem C16_index_upper_edge (coords : List Rat) (raise : Bool) (hs : Sorted coords) (hne : coords ≠ []) :
+    coordIndex coords (coords.getLast hne) raise = .ok (coords.length - 1) := by
+  have hlen : 0 < coords.length := List.length_pos_iff.mpr hne
+  obtain ⟨i, hi, heq, _, hnext, _⟩ := C16_index_unique coords (coords.getLast hne) raise hs hne
+    (by rw [List.getLast_eq_getElem]; exact sorted_head_le hs hne _ (by omega)) Rat.le_refl
+  rw [heq]
+  by_cases h : i + 1 < coords.length
+  · have h1 := hnext h
+    have h2 := sorted_le_getLast hs hne (i + 1) h
+    grind
+  · congr 1; omega
+
+/-- outside the axis range the lookup raises `KeyError`, or clamps: `0` below the first
+    coordinate, the axis size (one past the last index) above the last -/
+theorem C16_outside (coords : List Rat) (v : Rat) (hs : Sorted coords) (hne : coords ≠ [])
+    (hout : v < coords.head hne ∨ coords.getLast hne < v) :
+    coordIndex coords v true = .error .key ∧
+    coordIndex coords v false = (if v < coords.head hne then .ok 0 else .ok coords.length) := by
+  have : v < coords.head hne ∨ v > coords.getLast hne := hout
+  simp [coordIndex_sorted coords v _ hs hne, this]
+
+/-- the executable statement of the lookup part holds of the model on every sorted axis -/
+theorem C16_index_spec (coords : List Rat) (v : Rat) (raise : Bool) (hs : Sorted coords) :
+    indexSpec coords v raise (coordIndex coords v raise) = true := by
+  by_cases hne : coords = []
+  · subst hne; simp [indexSpec]
+  · have hhead : coords.head? = some (coords.head hne) := List.head?_eq_some_head hne
+    have hlast : coords.getLast? = some (coords.getLast hne) := List.getLast?_eq_some_getLast hne
+    simp only [indexSpec, hhead, hlast]
+    by_cases h1 : v < coords.head hne
+    · have := (C16_outside coords v hs hne (Or.inl h1))
+      cases raise <;> simp [h1, this]
+    · by_cases h2 : v > coords.getLast hne
+      · have := (C16_outside coords v hs hne (Or.inr h2))
+        cases raise <;> simp [h1, h2, this]
+      · obtain ⟨i, hi, heq, hle, hnext, _⟩ := C16_index_unique coords v raise hs hne (by grind) (by grind)
+        simp only [h1, h2, heq, if_false]
+        simp only [List.getElem?_eq_getElem hi, hle, decide_true, Bool.true_and]
+        by_cases hn : i + 1 < coords.length
+        · simp [List.getElem?_eq_getElem hn, hnext hn]
+        · simp [List.getElem?_eq_none (Nat.le_of_not_lt hn)]
+
+/-- … and it leaves no freedom: an output accepted by the statement is the model's output -/
+theorem C16_index_spec_determines (coords : List Rat) (v : Rat) (raise : Bool) (hs : Sorted coords)
+    (hne : coords ≠ []) (y : Except AErr Nat) (hy : indexSpec coords v raise y = true) :
+    y = coordIndex coords v raise := by
+  have hhead : coords.head? = some (coords.head hne) := List.head?_eq_some_head hne
+  have hlast : coords.getLast? = some (coords.getLast hne) := List.getLast?_eq_some_getLast hne
+  simp only [indexSpec, hhead, hlast] at hy
+  by_cases h1 : v < coords.head hne
+  · have := (C16_outside coords v hs hne (Or.inl h1))
+    cases raise <;> simp [h1] at hy <;> simp [this, hy, h1]
+  · by_cases h2 : v > coords.getLast hne
+    · have := (C16_outside coords v hs hne (Or.inr h2))
+      cases raise <;> simp [h1, h2] at hy <;> simp [this, hy, h1]
+    · obtain ⟨i, hi, heq, hle, hnext, huniq⟩ := C16_index_unique coords v raise hs hne (by grind) (by grind)
+      simp only [h1, h2, if_false] at hy
+      cases y with
+      | error e => simp at hy
+      | ok j =>
+        simp only at hy
+        by_cases hj : j < coords.length
+        · simp only [List.getElem?_eq_getElem hj, Bool.and_eq_true, decide_eq_true_eq] at hy
+          have hjn : ∀ h : j + 1 < coords.length, v < coords[j + 1] := by
+            intro h; have := hy.2; simpa [List.getElem?_eq_getElem h] using this
+          rw [heq, huniq j hj hy.1 hjn]
+        · simp [List.getElem?_eq_none (Nat.le_of_not_lt hj)] at hy
+
+/-! ## `set_value_at_pos` -/
+
+/-- `array.data[indexer] = value` writes exactly the addressed cell or slice: the shape and the
+    number of elements are unchanged, an element whose multi-index is addressed holds the value
+    (for an array value: its element at the broadcast position inside the slice), every other
+    element is unchanged -/
+theorem C16_set_exact {α} [Inhabited α] (a a' : NDArr α) (ix : Indexer) (v : Val α)
+    (hwf : a.data.length = size a.shape) (h : setAt a ix v = .ok a') :
+    a'.shape = a.shape ∧ a'.data.length = a.data.length ∧
+    ∀ m, inBounds a.shape m = true →
+      a'.get m = if addressed ix m then v.get (freePart ix a.shape) (freePart ix m) else a.get m := by
+  simp only [setAt] at h
+  split at h
+  · cases h
+    refine ⟨rfl, by simp, ?_⟩
+    intro m hm
+    have hlt : ravel a.shape m < a.data.length := by rw [hwf]; exact ravel_lt hm
+    simp only [NDArr.get]
+    rw [getD_mapIdx _ _ _ _ hlt, unravel_ravel hm]
+    split
+    · rfl
+    · simp [List.getD, hlt]
+  · simp at h
+
+/-- `set_value_at_pos`: for a query that names every axis once, the call succeeds only if every
+    queried position lies inside its axis range, and then it is the write of `C16_set_exact` with
+    the indexer holding, on each queried axis, the index found by the coordinate lookup on *that*
+    axis, and a full slice on every other axis -/
+theorem C16_set_value_at_pos {α} [Inhabited α] (a a' : NDArr α) (axes : List (List Rat))
+    (query : List (Nat × Rat)) (v : Val α) (hnd : (query.map Prod.fst).Nodup)
+    (h : setValueAtPos a axes query v = .ok a') :
+    ∃ ix : Indexer, setAt a ix v = .ok a' ∧ ix.length = a.shape.length ∧
+      (∀ k q, (k, q) ∈ query → ∃ coords i, axes[k]? = some coords ∧ coordIndex coords q true = .ok i ∧
+          (k < a.shape.length → ix[k]? = some (some i))) ∧
+      (∀ k, k < a.shape.length → (∀ q, (k, q) ∉ query) → ix[k]? = some none) := by
+  simp only [setValueAtPos] at h
+  split at h
+  · simp at h
+  · rename_i ix hix
+    obtain ⟨hlen, hq, hn⟩ := buildIndexer_spec axes query _ ix hnd hix
+    refine ⟨ix, h, by simpa using hlen, ?_, ?_⟩
+    · intro k q hm
+      obtain ⟨c, i, h1, h2, h3⟩ := hq k q hm
+      exact ⟨c, i, h1, h2, fun hk => h3 (by simpa using hk)⟩
+    · intro k hk hnot
+      rw [hn k hnot]; simp [hk]
+
+/-- what is rejected: a position outside its axis range (`KeyError`), an unknown axis, a sequence
+    written into a single cell and a value that cannot be broadcast into the slice (`ValueError`) -/
+theorem C16_set_rejects {α} [Inhabited α] (a : NDArr α) (axes : List (List Rat)) :
+    (∀ k q rest v coords, axes[k]? = some coords → coordIndex coords q true = .error .key →
+        setValueAtPos a axes ((k, q) :: rest) v = .error .key) ∧
+    (∀ k q rest v, axes[k]? = none → setValueAtPos a axes ((k, q) :: rest) v = .error .invalid) ∧
+    (∀ ix w, freePart ix a.shape = [] → setAt a ix (.arr w) = .error .invalid) ∧
+    (∀ ix w, broadcastable w.shape (freePart ix a.shape) = false → setAt a ix (.arr w) = .error .invalid) := by
+  refine ⟨?_, ?_, ?_, ?_⟩
+  · intro k q rest v coords h1 h2; simp [setValueAtPos, buildIndexer, h1, h2]
+  · intro k q rest v h1; simp [setValueAtPos, buildIndexer, h1]
+  · intro ix w h; simp [setAt, valueFits, h]
+  · intro ix w h; simp [setAt, valueFits, h]
+
+-- non-vacuity: concrete instances (hypotheses satisfiable, both branches taken)
+example : rangeCoords 0 1 (1/4) = [0, 1/4, 1/2, 3/4] := by decide +kernel
+example : rangeCoords 0 (5/4) 1 = [0] := by decide +kernel            -- upper half-step point dropped
+example : rangeCoords (1/2) (1/2) (1/4) = [] := by decide +kernel      -- empty range
+example : createRangeDim 0 1 none (some 4) = .ok ⟨[0, 1/4, 1/2, 3/4], 1/4⟩ := by decide +kernel
+example : createRangeDim 0 1 none none = .error .invalid := by decide +kernel
+example : coordIndex [0, 1, 3] 2 true = .ok 1 := by decide +kernel
+example : coordIndex [0, 1, 3] 3 true = .ok 2 := by decide +kernel
+example : coordIndex [0, 1, 3] 4 true = .error .key := by decide +kernel
+example : coordIndex [0, 1, 3] 4 false = .ok 3 := by decide +kernel
+example : coordIndex [0, 1, 3] (-1) false = .ok 0 := by decide +kernel
+example : Sorted [0, 1, 3] := by decide +kernel
+example : setValueAtPos (⟨[2, 3], [0, 0, 0, 0, 0, 0]⟩ : NDArr Rat) [[0, 1], [0, 1, 2]] [(0, 1)]
+    (.arr ⟨[3], [1, 2, 3]⟩) = .ok ⟨[2, 3], [0, 0, 0, 1, 2, 3]⟩ := by decide +kernel
+example : setValueAtPos (⟨[2, 3], [0, 0, 0, 0, 0, 0]⟩ : NDArr Rat) [[0, 1], [0, 1, 2]] [(1, 3/2), (0, 0)]
+    (.scalar 7) = .ok ⟨[2, 3], [0, 7, 0, 0, 0, 0]⟩ := by decide +kernel
 
 end SE.Proofs.C16
